@@ -851,7 +851,34 @@ def r04_10(prog: Program, rep: Report, rule="R04.10"):
     rep.check(ok and not bad, rule, f.qualname, f.loc, "a memoryview is decoded from the bytes of the view itself (tobytes())", "a memoryview is not converted with tobytes()/bytes(view): `.obj` is the whole exporting buffer, so a sliced view decodes bytes outside its window", detail="memoryview")
 
 
+def r04_14(prog: Program, rep: Report):
+    """A UTC offset is a signed duration: `timedelta.seconds` (and `.days`) are the *normalised* fields -- for -05:00 they are
+    days=-1, seconds=68400 -- so an offset read through `.seconds` turns every zone west of Greenwich into one nineteen hours
+    east.  Wherever the temporal code takes the components of an offset it goes through total_seconds() (or keeps the offset)."""
+    n, bad = 0, []
+    mods = ("typelib.serdes", "typelib.unmarshals.routines", "typelib.marshals.routines")
+    for q, f in sorted(prog.functions.items()):
+        if not q.startswith(mods):
+            continue
+        try:
+            ps = P.paths_of(prog, f)
+        except Exception:
+            continue
+        touches = False
+        for pth in ps:
+            for tm in pth.all_terms():
+                for x in T.walk(tm):
+                    if x[0] == "call" and x[1][0] == "attr" and x[1][2] == "utcoffset":
+                        touches = True
+                    if x[0] == "attr" and x[2] in ("seconds", "days", "microseconds") and T.contains(x[1], lambda y: y[0] == "call" and y[1][0] == "attr" and y[1][2] == "utcoffset"):
+                        bad.append(f"{f.name}: {T.show(x)[:60]}")
+        n += touches
+    rep.check(not bad, "R04.14", "typelib.serdes", "", f"no UTC offset is taken apart through the normalised timedelta fields ({n} function(s) read an offset)", f"a UTC offset is read through a normalised timedelta field ({sorted(set(bad))[:2]}): for a negative offset `.seconds` is 86400 minus the magnitude -- '…-05:00' comes back as +19:00, another instant and another offset", detail="offset-fields")
+
+
 def run(prog: Program, rep: Report, tier: str):
+    rep.rule("R04.14", "a UTC offset is never taken apart through timedelta.seconds / .days", floor=1)
+    r04_14(prog, rep)
     rep.rule("R04.10", "no memoised renderer of coarse-equality values in serdes; memoryview decoded from its own bytes", floor=2)
     rep.rule("R04.11", "the reader of temporal text starts with the inverse of the writer", floor=1)
     r04_11(prog, rep)
